@@ -85,6 +85,9 @@ def run(res, tier):
     R.rec_rule(res, fx, cg, entries, reach, 'R-REC', anchor_files=ANCHOR_FILES, side_nesting=True)
     R.crash_rule(res, fx, cg, entries, reach, 'R-CRASH', taint_entry=False)
     from . import sm_state
+    from . import srs_shared as SS
+    SS.ancestor_deref_rule(res, fx, 'R-CRASH')
+    SS.raw_from_ref_rule(res, fx, 'R-CRASH')
     sm_state.regex_valid_rule(res, fx)       # a client-supplied pattern that fails to compile must leave the matcher unusable-but-safe, not crash the server
     res.extra['loops_seen'] = nloops
     res.extra['entries'] = ENTRIES
